@@ -78,7 +78,10 @@ def case(draw, tier):
     stop_before_run = draw(st.integers(0, 14)) == 0
     # run window: starts "now" (default), a little in the past (the loop lags from its first cycle) or in the future
     start_in_us = draw(st.sampled_from([None, None, None, -3000, -200, 1500, 4000]))
-    return {"start_in_us": start_in_us, "stop_before_run": stop_before_run, "window_us": window_us, "by_end": by_end, "timers": timers, "sleep_us": draw(st.sampled_from([600, 2000, 5000])) if sleeper else 0,
+    # the push source itself may use the scheduler: its start hook books one timer, and values pushed before that time must not
+    # make the loop forget it
+    ps_timer_us = draw(st.sampled_from([0, 0, 1500, 4000, 9000])) if push else 0
+    return {"ps_timer_us": ps_timer_us, "start_in_us": start_in_us, "stop_before_run": stop_before_run, "window_us": window_us, "by_end": by_end, "timers": timers, "sleep_us": draw(st.sampled_from([600, 2000, 5000])) if sleeper else 0,
             "push": push, "producers": producers, "stop_after_us": draw(st.sampled_from([0, 300, 3000]))}
 
 
@@ -96,7 +99,7 @@ def check(case, ctx) -> Result:
     if case["sleep_us"]:
         stmts.append({"id": "slow", "op": "node", "ins": ["t0"], "out": "TS[int]", "fn": "sum", "sleep_us": case["sleep_us"], "clock": True, "log_inputs": False})
     if case["push"]:
-        stmts.append({"id": "ps", "op": "push_src", "schema": "TS[int]", "policy": "queue", "capacity": 0})
+        stmts.append({"id": "ps", "op": "push_src", "schema": "TS[int]", "policy": "queue", "capacity": 0, **({"start_timer_us": case["ps_timer_us"]} if case.get("ps_timer_us") else {})})
         stmts.append({"id": "sink", "op": "node", "ins": ["ps"], "collect": True, "clock": True})
     prog = {"mode": "rt", "max_wait_slice_us": 3600000000, "node_events": True, "stmts": stmts}
     rt = {"n_push": 1 if case["push"] else 0, "producers": case["producers"], "count_drain": case["push"]}
@@ -168,6 +171,23 @@ def check(case, ctx) -> Result:
             if horizon_ok and not any(x >= due for x in my):
                 res.violations.append(Viol("alarm_dropped", f"node {t['id']} asked at {tr_} for a wall-clock alarm {d} us later, booked for engine time {due}; the run went on until {end if case['by_end'] else last_cycle} but the node was never evaluated at or after {due} (its evaluations: {my[:8]})", feats))
                 break
+    # the push source's own timer: a cycle at exactly that time that visits the source, if the run went on that long
+    for e in resp["trace"]:
+        if e[0] == "pst":
+            idx, due = e[2], e[5]
+            owed = (due < end) if (case["by_end"] and end is not None) else (last_cycle is not None and due <= last_cycle)
+            hit = False
+            cur_t = None
+            for x in resp["trace"]:
+                if x[0] == "gE" and x[1] == "r":
+                    cur_t = x[2]
+                elif x[0] == "nE" and x[1] == "r" and x[2] == idx and cur_t == due:
+                    hit = True
+                    break
+            if owed and not hit:
+                pushes_before = sum(1 for s_ in resp["log"] if s_[0] == "send")
+                res.violations.append(Viol("missed_wakeup", f"the push source booked a timer for {due} in its start hook (started at {e[4]}); the run went on until {end if case['by_end'] else last_cycle} but no cycle at {due} visited it ({pushes_before} values were pushed)", dict(feats, push_source_timer=True)))
+            res.labels.append("push_source_with_timer")
     drains = [e for e in resp["log"] if e[0] == "drain"]
     if case["push"] and any(not d[2] for d in drains):   # accepted implies the source was still running: it must be delivered
         res.violations.append(Viol("push_not_delivered_while_waiting", f"values pushed while the loop was running/waiting were not delivered within the drain timeout: {drains}", feats))
